@@ -67,6 +67,7 @@ impl C14Heavy {
                 sort_rank: (0..ncand).collect(),
                 favored: None,
                 locked: None,
+                lock_gone: false,
                 hint: hint.clone(),
                 unlisted: vec![],
             });
